@@ -143,7 +143,7 @@ func summariseModel(m string) string {
 	lines := strings.Split(m, "\n")
 	for i := 0; i < len(lines); i++ {
 		ln := lines[i]
-		if strings.Contains(ln, "define-fun p_") || strings.Contains(ln, "define-fun H0_") {
+		if strings.Contains(ln, "define-fun p_") || strings.Contains(ln, "define-fun H0_") || strings.Contains(ln, "define-fun c!") || strings.Contains(ln, "define-fun d!") || strings.Contains(ln, "!sk") {
 			blk := ln
 			depth := strings.Count(ln, "(") - strings.Count(ln, ")")
 			for depth > 0 && i+1 < len(lines) {
